@@ -30,7 +30,9 @@ import (
 )
 
 func runCase(c *kit.Case) {
-	switch c.Index % 8 {
+	// (index/16 + index%16) so that every child process of the sharded runner
+	// (case i runs in child i%16) sees every kind of case.
+	switch (c.Index/16 + c.Index%16) % 8 {
 	case 5, 6:
 		runQueueSeq(c)
 	case 7:
@@ -209,7 +211,8 @@ func runPublic(c *kit.Case) {
 	for i := range startStagger {
 		startStagger[i] = time.Duration(r.Range(0, 3)) * time.Millisecond
 	}
-	tr := kit.NewRand(c.Seed, uint64(c.Index)*104729+7) // transport latency stream
+	tr := kit.NewRand(c.Seed, uint64(c.Index)*104729+7) // transport latency stream (used under the transport write lock only)
+	actYield := r.Range(0, 30)
 
 	node, _ := w.NewNode(nodeCfg, func(n *centrifuge.Node) {
 		n.OnConnecting(func(_ context.Context, _ centrifuge.ConnectEvent) (centrifuge.ConnectReply, error) {
@@ -382,7 +385,7 @@ func runPublic(c *kit.Case) {
 			go func() {
 				defer wg.Done()
 				time.Sleep(actAt)
-				kit.Yield(tr.Range(0, 30))
+				kit.Yield(actYield)
 				discCallSeq.Store(w.Seq())
 				conn.Client.Disconnect(disc)
 			}()
@@ -391,7 +394,7 @@ func runPublic(c *kit.Case) {
 			go func() {
 				defer wg.Done()
 				time.Sleep(actAt)
-				kit.Yield(tr.Range(0, 30))
+				kit.Yield(actYield)
 				discCallSeq.Store(w.Seq())
 				if noflushVia == "closefn" {
 					_ = conn.CloseFn()
@@ -1432,7 +1435,7 @@ func TestC12(t *testing.T) {
 		ID:     "C12",
 		Level:  "exploration",
 		Bubble: true,
-		Rule: "every case runs in a virtual-time bubble; case index mod 8 selects the kind. " +
+		Rule: "every case runs in a virtual-time bubble; (index/16 + index%16) mod 8 selects the kind of case. " +
 			"0-4 public path: one Client on a recording transport, writer configured through ConnectReply{WriteDelay 0/0.5/1/5/20ms, MaxMessagesInFrame 0/-1/1/2/3/8/64, QueueInitialCap 0/1/2/4/16, QueueShrinkDelay default/immediate/3ms/50ms, WriteWithTimer, ReplyWithoutQueue}, JSON/Protobuf, bi/unidirectional; " +
 			"1-4 producer goroutines call Client.Send with unique ids (producer:seq, padded payloads 20-1500 bytes) in bursts and at PRNG-chosen virtual instants, an RPC command producer feeds the reply path; transport latency none / seeded Gosched yields inside Write / seeded virtual sleeps inside Write; " +
 			"scenarios: steady (all accepted messages must arrive), Client.Disconnect with a flushing code at a PRNG instant (everything accepted before the call must arrive before Transport.Close, close code preserved), close without flush, blocked transport + burst beyond ClientQueueMaxSize (Send must fail once the pending payload exceeds the limit, transport closed with 3008; a below-limit variant must stay open), failing write call n (closed with 3009, nothing recorded after). " +
